@@ -20,6 +20,7 @@ import NgVerif.Model.Convert
 import NgVerif.Model.Fault
 import NgVerif.Model.Pipeline
 import NgVerif.Model.Buffers
+import NgVerif.Model.Enc
 /-
   ngdriver: line protocol. One request per line on stdin (space-separated tokens),
   one reply per line on stdout. Unknown / malformed requests answer `bad-request`.
@@ -448,6 +449,12 @@ def handle (toks : List String) : String :=
         showNatList (Scales.chunkSizes ds e L) ++ "/" ++
         showNatList (ds.map fun d => Scales.fac L d))
     | _, _, _ => "bad-request"
+  | ["get-encoder", dt, nc, enc, blk] =>
+    -- "-" = key missing; nc as an integer ("x" = not an integer)
+    let o (t : String) : Option String := if t == "-" then none else some t
+    let n : Option Int := if nc == "-" then none else some ((parseInt nc).getD 0)
+    match Enc.select ⟨o dt, n, o enc, blk == "1"⟩ with
+    | some .raw => "raw" | some .cseg => "compressed_segmentation" | some .jpeg => "jpeg" | none => "InvalidInfoError"
   | ["vol-chunks", size, cs] =>
     match (parseList parseNat size).bind triple, (parseList parseNat cs).bind triple with
     | some s, some c =>
@@ -656,7 +663,10 @@ def handle (toks : List String) : String :=
       let i := Pipeline.allInOneInfo n full (opt ty) (opt enc)
       let sc := i.scales.map fun s =>
         s!"{s.encoding.getD "-"}:{match s.csegBlock with | some (a, b, c) => s!"{a}.{b}.{c}" | none => "-"}"
-      s!"{i.type.getD "-"} {i.dataType} {" ".intercalate sc}"
+      -- and the codec `get_encoder` picks for every scale of that info
+      let codecs := i.scales.map fun s => match Enc.select (Enc.ofInfo i s) with
+        | some .raw => "raw" | some .cseg => "compressed_segmentation" | some .jpeg => "jpeg" | none => "InvalidInfoError"
+      s!"{i.type.getD "-"} {i.dataType} {" ".intercalate sc} | {" ".intercalate codecs}"
     | _, _ => "bad-request"
   | ["resolve-method", method, ty] =>
     Pipeline.resolveMethod method (if ty == "-" then none else some ty)
